@@ -131,6 +131,15 @@ Theorem C02_filecursor_asc_is_lww : forall h s current, ops_allowed h = true ->
 Proof. exact fc_rows_asc_is_lww. Qed.
 Print Assumptions C02_filecursor_asc_is_lww.
 
+(* the REPAIRED descending walk (the file at visiting index len-1 is the last one; rows of memtable / out-of-order files
+   are cut at each chunk's minimum time): the blocks, each delivered newest row first, are the last-write-wins rows of
+   the series in descending time order - for every allowed history. Today's descending walk is refuted in Refuted.v
+   (C02_desc_filecursor_current_refuted). *)
+Theorem C02_filecursor_desc_repaired_is_lww : forall h s, ops_allowed h = true ->
+  fc_stream_desc (run false h) s = rev (sel s (lww_table (writes_of h))).
+Proof. exact fc_stream_desc_is_lww. Qed.
+Print Assumptions C02_filecursor_desc_repaired_is_lww.
+
 (* ---- Examples: concrete histories on the executable model (closed by vm_compute) ---- *)
 Definition r (s t : Z) (fs : list (Z * Z)) : row := ((s, t), fs).
 Definition h1 : list op :=
